@@ -310,6 +310,33 @@ pub fn ints128(k: u32) -> Vec<u128> {
             v.push(p.wrapping_add(d));
             v.push(p.wrapping_sub(d));
         }
+        if j >= 53 {
+            // the ties of rounding an integer in [2^j, 2^(j+1)) to 53 bits sit at odd multiples of 2^(j-53):
+            // every multiple m * 2^(j-53), m = 1..8, with its neighbours, and (for long integers) with the second-level
+            // distances 2^(j-106), 2^(j-107) at which the remainder itself rounds
+            let t = 1u128 << (j - 53);
+            for m in 1..=8u128 {
+                for d in [0u128, 1, 2, 3] {
+                    v.push(p.wrapping_add(m * t).wrapping_add(d));
+                    v.push(p.wrapping_add(m * t).wrapping_sub(d));
+                }
+                if j >= 107 {
+                    for sh in [j - 106, j - 107] {
+                        let d2 = 1u128 << sh;
+                        v.push(p.wrapping_add(m * t).wrapping_add(d2));
+                        v.push(p.wrapping_add(m * t).wrapping_sub(d2));
+                    }
+                }
+            }
+            // the same around an odd 53-bit high word (p + 2^(j-52)): p + 2^(j-52) +- (2^(j-53) - 1)
+            let u = 1u128 << (j - 52).min(127);
+            if j >= 54 && j < 127 {
+                for k in [1u128, 3, 5] {
+                    v.push(p.wrapping_add(k * u).wrapping_add(t - 1));
+                    v.push(p.wrapping_add(k * u).wrapping_sub(t - 1));
+                }
+            }
+        }
         if j >= 54 {
             let half = 1u128 << (j - 54);
             let ulp = 1u128 << (j - 53);
